@@ -8,14 +8,15 @@ git -C $WT reset -q --hard; git -C $WT checkout -q --detach $(git -C /repo rev-p
 export CARGO_NET_OFFLINE=true
 for d in "$@"; do
   d=$(realpath $d)
-  id=$(echo $d | sed 's#.*/\(C[0-9]*b\?\)/\([0-9]*\)/*$#\1_\2#')
+  id=$(echo $d | sed 's#.*/\(C[0-9][0-9][a-z0-9]*\)/\([0-9]*\)/*$#\1_\2#')
   patch=$d/patch.diff; [ -f $d/patch.ported.diff ] && patch=$d/patch.ported.diff
   git -C $WT reset -q --hard; git -C $WT clean -fdq wgsl_to_wgpu/tests
   cp $d/demo.rs $WT/wgsl_to_wgpu/tests/demo_$id.rs
   (cd $WT && cargo test -p wgsl_to_wgpu --test demo_$id --offline >/tmp/mut/confirm_$id.pre 2>&1); pre=$?
   if ! git -C $WT apply $patch 2>/tmp/mut/confirm_$id.apply; then echo "$id APPLY-FAILED" >> /verif/seeded_pending/confirm.log; continue; fi
   (cd $WT && cargo test --workspace --offline --no-fail-fast >/tmp/mut/confirm_$id.post 2>&1); post=$?
-  failed=$(grep -E "^test .* FAILED|^error: test failed" /tmp/mut/confirm_$id.post | grep -v "demo_$id" | grep -c "^test ")
+  # test targets other than the demo that failed (cargo prints one `error: test failed, to rerun pass ..` line per failing target)
+  failed=$(grep -E "^error: test failed" /tmp/mut/confirm_$id.post | grep -vc "demo_$id")
   demofail=$(grep -c "error: test failed, to rerun pass .*--test demo_$id" /tmp/mut/confirm_$id.post)
   builderr=$(grep -c "^error\[" /tmp/mut/confirm_$id.post)
   echo "$id pre_rc=$pre post_rc=$post other_tests_failed=$failed demo_failed=$demofail build_errors=$builderr patch=$(basename $patch)" >> /verif/seeded_pending/confirm.log
